@@ -4,7 +4,8 @@
 import copy, ipaddress
 from .lib import core, gen, listcorr, meta
 
-EDITS = ['add_rule', 'add_policy_governed', 'add_policy_ungoverned', 'sel_spelling', 'range_split', 'cidr_halves', 'policy_split', 'policy_types', 'sel_spelling', 'sel_spelling']
+EDITS = ['add_rule', 'add_policy_governed', 'add_policy_ungoverned', 'sel_spelling', 'range_split', 'cidr_halves', 'policy_split', 'policy_types', 'sel_spelling', 'sel_spelling',
+         'cidr_except_split', 'policy_types', 'add_rule']
 
 
 def rand_rule(r, W, d):
@@ -61,6 +62,12 @@ def bias_selectors(r, W):
         W['netpols'].append({'ns': tgt['ns'], 'name': 'npmixed', 'podSelector': {}, 'policyTypes': ['Ingress' if d == 'ingress' else 'Egress'],
                              d: [{'from' if d == 'ingress' else 'to': [{'namespaceSelector': {}, 'podSelector': sel}],
                                   'ports': [{'protocol': 'TCP', 'port': r.choice(gen.PORTS)}]}]})
+    if r.random() < 0.2:
+        # one policy mentions one CIDR twice, with and without an `except`
+        w = r.choice(W['workloads'])
+        W['netpols'].append({'ns': w['ns'], 'name': 'nptwicecidr', 'podSelector': {}, 'policyTypes': ['Ingress', 'Egress'],
+                             'ingress': [{'from': [{'ipBlock': {'cidr': '10.0.0.0/8', 'except': ['10.1.0.0/16']}}], 'ports': [{'protocol': 'TCP', 'port': 443}]}],
+                             'egress': [{'to': [{'ipBlock': {'cidr': '10.0.0.0/8'}}], 'ports': [{'protocol': 'TCP', 'port': 80}]}]})
     return W
 
 
@@ -172,11 +179,33 @@ def apply_edit(r, W, kind):
         idx = nps.index(p)
         nps[idx:idx + 1] = [p1, p2]
         return W2, 'eq', [], [], 'policy %s split into two policies with the same selector' % p['name']
+    if kind == 'cidr_except_split':
+        # one rule peer {cidr C} against the two peers [{cidr C except H2}, {cidr H2}] of the same rule, in this order: every entry counts
+        locs = [(rule, key, i) for p in nps for d, key in (('ingress', 'from'), ('egress', 'to')) for rule in (p.get(d) or [])
+                for i, peer in enumerate(rule.get(key) or []) if peer.get('ipBlock') and not peer['ipBlock'].get('except')
+                and ipaddress.ip_network(peer['ipBlock']['cidr'], strict=False).prefixlen < 32]
+        if not locs:
+            return None
+        rule, key, i = r.choice(locs)
+        c = rule[key][i]['ipBlock']['cidr']
+        h1, h2 = [str(x) for x in ipaddress.ip_network(c, strict=False).subnets()]
+        hx = r.choice([h1, h2])
+        rule[key][i:i + 1] = [{'ipBlock': {'cidr': c, 'except': [hx]}}, {'ipBlock': {'cidr': hx}}]
+        return W2, 'eq', [], [], 'ipBlock %s written as [%s except %s, %s]' % (c, c, hx, hx)
     if kind == 'policy_types':
         cands = [p for p in nps]
         if not cands:
             return None
         p = r.choice(cands)
+        if r.random() < 0.35 and sorted(meta.effective_types(p)) == ['Ingress'] and not p.get('egress'):
+            # [Ingress] spelled by default with an explicit EMPTY egress list (nothing to default from) against the explicit types
+            if p.get('policyTypes'):
+                del p['policyTypes']
+                p['egress'] = []
+                return W2, 'eq', [], [], 'explicit policyTypes [Ingress] of %s replaced by the default with `egress: []`' % p['name']
+            p['policyTypes'] = ['Ingress']
+            W['netpols'][nps.index(p)]['egress'] = []
+            return W2, 'eq', [], [], 'defaulted policyTypes of %s (with `egress: []`) made explicit' % p['name']
         eff = meta.effective_types(p)
         if not p.get('policyTypes'):
             p['policyTypes'] = eff
